@@ -11,6 +11,10 @@
 (*              calc_penalties observed on the receiver, nup = how many times this receiver object had been    *)
 (*              updated so far) and, for a bidirectional request, the receiver figures of the reverse path     *)
 (*              RETURNED for it (kind 2).  A request of a batch carries the pristine figures of ITS OWN route. *)
+(*   bidir      what THIS service asked for in the service file (the services of a file that differ in this flag *)
+(*              are different requests whatever the aggregation step does)                                      *)
+(*   txc        user-defined spectrum: reciprocal transmitter OSNR of every carrier as written (<<>>: none, the  *)
+(*              mode's transmitter OSNR applies to every carrier)                                               *)
 (*   out        what the code answered: selected mode and blocking reason                                      *)
 (* Monitor-shaped: every event is consumed, `viol` accumulates <<step, clause>>, the last step judges the       *)
 (* verdict; one line per trace is printed.  All figures are per channel.                                       *)
@@ -29,6 +33,9 @@ Chans(e)     == 1..Len(e.rx)
 StagesOf(tr, e) == IF e.dir = 0 THEN tr.stf ELSE tr.str
 Pristine(tr, k, dir) == IF dir = 0 THEN tr.modes[k].pf ELSE tr.modes[k].pr
 
+\* the transmitter figure of carrier c: its own one in a user-defined spectrum, else the mode's
+TxAt(tr, m, c) == IF c > Len(tr.txc) THEN m.tx ELSE tr.txc[c]
+
 EventAt(tr, k) == LET e == tr.ev[k] IN IF e.kind = 0 THEN Pristine(tr, e.mode, e.dir) ELSE e
 
 SameFigure(a, b, tol) == IF a >= Inf \/ b >= Inf THEN a >= Inf /\ b >= Inf ELSE Within(a, b, tol)
@@ -41,9 +48,10 @@ EvalClauses(tr, e) ==
       tpdl == TableOf(m.pdl)
       st   == StagesOf(tr, e)
   IN  (IF \A j \in 1..Len(st) : StageOK(st[j]) THEN {} ELSE {"StageWellFormed"}) \cup
+      (IF Len(tr.txc) = 0 \/ Len(tr.txc) = Len(e.rx) THEN {} ELSE {"SpectrumCarriers"}) \cup
       (IF PointsOK(m.cd) /\ PointsOK(m.pmd) /\ PointsOK(m.pdl) /\ TableOK(tcd) /\ TableOK(tpmd) /\ TableOK(tpdl)
        THEN {} ELSE {"TableWellFormed"})
-      \cup (IF \A c \in Chans(e) : CompositionOK(e.rx[c], e.line[c], m.tx, AddsOf(st), TolInv)
+      \cup (IF \A c \in Chans(e) : CompositionOK(e.rx[c], e.line[c], TxAt(tr, m, c), AddsOf(st), TolInv)
             THEN {} ELSE {"CompositionLaw"})
       \cup (IF \A c \in Chans(e) : /\ PenaltyOK(tcd, e.cd[c], e.pcd[c], TolPen)
                                    /\ PenaltyOK(tpmd, e.pmd[c], e.ppmd[c], TolPen)
